@@ -281,4 +281,16 @@ theorem exp_log_SO3_obtuse (hS : P.Sqrt) (hA : Atan2Law P) (m : Mat 3 3 R) (hm :
     | (refine obtuse_leaf_pos P hS hm _ _ _ ((m 2 1 - m 1 2) / 2) _ c s _ _ ?_ ?_ ?_ ?_ hss.symm hunit hs hc ?_ hc2 ?_ hcos hsin (by first | exact h5 | exact h6 | exact h8 | exact h9) <;> (first | linear_combination r00 | linear_combination r01 | linear_combination r02 | linear_combination r10 | linear_combination r11 | linear_combination r12 | linear_combination r20 | linear_combination r21 | linear_combination r22 | linarith | ring1))
     | (refine obtuse_leaf_pos P hS hm _ _ _ ((m 0 2 - m 2 0) / 2) _ c s _ _ ?_ ?_ ?_ ?_ hss.symm hunit hs hc ?_ hc2 ?_ hcos hsin (by first | exact h5 | exact h6 | exact h8 | exact h9) <;> (first | linear_combination r00 | linear_combination r01 | linear_combination r02 | linear_combination r10 | linear_combination r11 | linear_combination r12 | linear_combination r20 | linear_combination r21 | linear_combination r22 | linarith | ring1))
     | (refine obtuse_leaf_pos P hS hm _ _ _ ((m 1 0 - m 0 1) / 2) _ c s _ _ ?_ ?_ ?_ ?_ hss.symm hunit hs hc ?_ hc2 ?_ hcos hsin (by first | exact h5 | exact h6 | exact h8 | exact h9) <;> (first | linear_combination r00 | linear_combination r01 | linear_combination r02 | linear_combination r10 | linear_combination r11 | linear_combination r12 | linear_combination r20 | linear_combination r21 | linear_combination r22 | linarith | ring1))
+set_option maxHeartbeats 4000000
+
+/-- the matrix form of the logarithm is the skew matrix of the vector form (same eleven paths): what is proved about
+    `trlog(R, twist=True)` holds for `trlog(R)` -/
+theorem trlog_R_is_skew_of_twist (m L : Mat 3 3 R) (h : Gen.trlog_R P m = .ok L) :
+    Gen.trlog_R_twist P m = .ok (v3 (L 2 1) (L 0 2) (L 1 0)) ∧ L = skew3 (v3 (L 2 1) (L 0 2) (L 1 0)) := by
+  unfold Gen.trlog_R at h; unfold Gen.trlog_R_twist; simp only [] at h ⊢
+  split_ifs at h <;> cases h <;> refine ⟨?_, ?_⟩
+  all_goals first
+    | (simp only [*, if_true, if_false, v3_0, v3_1, v3_2]; done)
+    | (funext i j; fin_cases i <;> fin_cases j <;> simp [skew3] <;> (try ring1); done)
+    | (simp only [*, if_true, if_false, v3_0, v3_1, v3_2]; congr 1; funext i; fin_cases i <;> simp <;> (try ring1); done)
 end SmVerif.Props.C03
